@@ -466,8 +466,8 @@ def check(prop, tier):
                              [fbase[c.key()] for c in oc], mode=mode)
         o["task"] = i
         return o
-    npoints = {"abort": 0, "preempt": 0}
-    nfired = {"abort": 0, "preempt": 0}
+    npoints = {"abort": 0, "preempt": 0, "raise": 0, "raise_mem": 0}
+    nfired = {"abort": 0, "preempt": 0, "raise": 0, "raise_mem": 0}
     nfexec = 0
     for o in common.pmap_dynamic(worker_e, list(range(len(ftasks)))):
         mode, gi, vi, obs = ftasks[o["task"]]
@@ -493,13 +493,17 @@ def check(prop, tier):
             if isinstance(m2, str) and m2.startswith("HARNESS"):
                 res.harness_error(m2)
                 continue
-            rp = common.write_replay(prop, f"{mode}ed_predecessor", {
+            tag = {"abort": "aborted", "preempt": "preempted"}.get(
+                mode, "exception_hit")
+            rp = common.write_replay(prop, f"{tag}_predecessor", {
                 "property": prop, "kind": "c15_fault", "mode": mode,
                 "victim": g[vi].as_json(), "point": k,
                 "observed": [c.as_json() for c in oc]})
             what = ("aborted by a BaseException" if mode == "abort" else
+                    "hit by a RecursionError" if mode == "raise" else
+                    "hit by a MemoryError" if mode == "raise_mem" else
                     f"preempted (the other thread runs {oc[0]!r} to the end)")
-            res.violation({"code": f"{mode}ed_predecessor", "cls": g[vi].cls},
+            res.violation({"code": f"{tag}_predecessor", "cls": g[vi].cls},
                           f"{g[vi]!r} {what} at library line event {k}; "
                           f"afterwards {m2}", rp)
     res.add(evaluations=nfexec, states=sum(npoints.values()),
@@ -509,6 +513,7 @@ def check(prop, tier):
     res.counters["aborts_delivered"] = nfired["abort"]
     res.counters["preemption_points"] = npoints["preempt"]
     res.counters["preemptions_delivered"] = nfired["preempt"]
+    res.counters["exception_points"] = npoints["raise"] + npoints["raise_mem"]
     res.counters["fault_executions"] = nfexec
     res.bounds["fault_groups"] = len(groups)
     res.bounds["fault_victims"] = len(ftasks)
